@@ -386,7 +386,8 @@ def run_history(ctx, rng, n):
             cur = conn.cursor()
             plist = [params] + [param_variants(rng, params) if text in [t for t, _ in LEDGER_STATEMENTS + INVS_STATEMENTS] else params for _ in range(rng.randint(1, 2))]
             try:
-                cur.executemany(text, plist)
+                # (the parameter sets as a list, as an iterator or from a generator: any iterable of sets)
+                cur.executemany(text, [plist, iter(plist), (x for x in plist)][executed % 3])
                 desc = cur.description
                 a = ('ok', [d.name for d in desc], [d.datatype for d in desc], cur.fetchall())
             except Exception as exc:  # noqa: BLE001
